@@ -253,19 +253,21 @@ deriving DecidableEq, Repr, Inhabited
 def staffWritten (nStaves staff : Nat) : Nat :=
   if staff ≠ 0 ∧ (staff ≠ 1 ∨ 1 < nStaves) then staff else 0
 
-/-- the loop `for n in voice_notes:` — a grace note without `grace_prev` emits its whole sequence,
-    a grace note with `grace_prev` emits nothing, other notes emit themselves -/
+/-- one round of the loop `for n in voice_notes:` — a grace note without `grace_prev` emits its whole
+    sequence, a grace note with `grace_prev` emits nothing, other notes emit themselves -/
+def emitOne (nStaves voice : Nat) (n : NoteIn) : List Placed :=
+  if n.grace then
+    if n.gracePrev then []
+    else n.seq.map fun g =>
+      { idx := g.idx, onset := g.onset, dur := 0, grace := true, chord := false, voice := voice,
+        staff := staffWritten nStaves g.staff }
+  else
+    [{ idx := n.idx, onset := n.onset, dur := n.dur, grace := false, chord := false, voice := voice,
+       staff := staffWritten nStaves n.staff }]
+
 def emitVoice (nStaves voice : Nat) : List NoteIn → List Placed
   | [] => []
-  | n :: rest =>
-    (if n.grace then
-      if n.gracePrev then []
-      else n.seq.map fun g =>
-        { idx := g.idx, onset := g.onset, dur := 0, grace := true, chord := false, voice := voice,
-          staff := staffWritten nStaves g.staff }
-    else
-      [{ idx := n.idx, onset := n.onset, dur := n.dur, grace := false, chord := false, voice := voice,
-         staff := staffWritten nStaves n.staff }]) ++ emitVoice nStaves voice rest
+  | n :: rest => emitOne nStaves voice n ++ emitVoice nStaves voice rest
 
 /-- `add_chord_tags`; `prev = (prev, prev_dur)` -/
 def tagChords (prev : Option (Nat × Nat)) : List Placed → List Placed
@@ -331,10 +333,10 @@ def mergeWithVoice (notes : List Placed) (other : List OtherIn) (start : Nat) : 
   placeItems start start (isortBy itemLt (notes.map Item.note ++ other.map Item.other))
 
 /-- position after the last element: `elements[-1][0] + (elements[-1][1] or 0)` -/
-def lastAfter (pos : Nat) : List Out → Nat
-  | [] => pos
-  | [o] => o.after
-  | _ :: rest => lastAfter pos rest
+def lastAfter (pos : Nat) (l : List Out) : Nat :=
+  match l.getLast? with
+  | some o => o.after
+  | none => pos
 
 /-- the loop of merge_measure_contents over the sorted voices; `first` = `i == 0` -/
 def mergeVoices (other : List OtherIn) (start : Nat) (first : Bool) (pos : Nat) :
@@ -359,12 +361,19 @@ def mergeMeasure (voices : List (Nat × List Placed)) (other : List OtherIn) (st
 
 def voiceLt (a b : Nat × List NoteIn) : Bool := decide (a.1 < b.1)
 
+/-- the voices of a segment after `remove_voice_polyphony`, in the order `sorted(notes_by_voice.keys())`;
+    a segment without notes has the single voice `None` -/
+def segVoices (s : Segment) : List (Nat × List NoteIn) :=
+  let voices := isortBy voiceLt (assignVoices s.notes)
+  if voices.isEmpty then [(0, [])] else voices
+
+/-- `voices_e`: per voice the `<note>` elements in document order, with their chord tags -/
+def segPlaced (nStaves : Nat) (s : Segment) : List (Nat × List Placed) :=
+  (segVoices s).map fun vn => (vn.1, tagChords none (emitVoice nStaves vn.1 (sortVoice vn.2)))
+
 /-- `linearize_segment_contents` -/
 def linearizeSegment (nStaves : Nat) (s : Segment) : List Ev :=
-  let voices := isortBy voiceLt (assignVoices s.notes)
-  let voices := if voices.isEmpty then [(0, [])] else voices
-  let placed := voices.map fun (v, ns) => (v, tagChords none (emitVoice nStaves v (sortVoice ns)))
-  mergeMeasure placed s.others s.start s.stop
+  mergeMeasure (segPlaced nStaves s) s.others s.start s.stop
 
 /-- `linearize_measure_contents` -/
 def linearize (m : MeasureContent) : List Ev :=
@@ -437,5 +446,53 @@ def interpret (start : Nat) (evs : List Ev) : Option (List NoteOut × Nat) := in
 
 /-- the position bookkeeping of `_handle_measure` / `_handle_note` -/
 def readMeasure (start : Nat) (evs : List Ev) : Option (List NoteOut × Nat) := interpretWith false start evs
+
+/-! ### what a written note must read back as, and the measures the theorems speak about -/
+
+/-- a placed `<note>` as it should be read -/
+def Placed.out (p : Placed) : NoteOut :=
+  { idx := p.idx, onset := p.onset, dur := p.dur, voice := orOne p.voice, staff := orOne p.staff }
+
+/-- a note of the score as it should be read when it is written in voice `v` -/
+def NoteIn.out (v : Nat) (n : NoteIn) : NoteOut :=
+  { idx := n.idx, onset := n.onset, dur := if n.grace then 0 else n.dur, voice := orOne v, staff := orOne n.staff }
+
+def NoteIn.ref (n : NoteIn) : GraceRef := { idx := n.idx, onset := n.onset, staff := n.staff }
+
+def MeasureContent.start (m : MeasureContent) : Nat :=
+  match m.segs.head? with
+  | some s => s.start
+  | none => 0
+
+def MeasureContent.stop (m : MeasureContent) : Nat :=
+  match m.segs.getLast? with
+  | some s => s.stop
+  | none => 0
+
+/-- the notes of a voice are well formed: inside the segment, grace notes have no duration, the members of a
+    grace sequence sit on the onset of its first note, and the sequences of the first notes are exactly the
+    grace notes of the voice (`iter_grace_seq` of the heads enumerates every grace note once) -/
+def VoiceWF (s : Segment) (ns : List NoteIn) : Prop :=
+  (∀ n ∈ ns, s.start ≤ n.onset ∧ n.onset + n.dur ≤ s.stop ∧ (n.grace = true → n.dur = 0) ∧
+      (∀ g ∈ n.seq, g.onset = n.onset)) ∧
+  ((ns.filter fun n => n.grace && !n.gracePrev).flatMap (·.seq)).Perm ((ns.filter (·.grace)).map NoteIn.ref)
+
+/-- a segment is well formed: its extent is ordered and lies behind the measure start, the note identities are
+    distinct, the other elements lie inside it and none of them carries the rank of notes, and every voice that
+    is written is well formed -/
+def SegWF (mstart : Nat) (s : Segment) : Prop :=
+  mstart ≤ s.start ∧ s.start ≤ s.stop ∧ (s.notes.map (·.idx)).Nodup ∧
+  (∀ o ∈ s.others, s.start ≤ o.onset ∧ o.onset ≤ s.stop ∧ o.order ≠ 6) ∧
+  (∀ vn ∈ assignVoices s.notes, VoiceWF s vn.2)
+
+/-- consecutive segments meet -/
+def Chained : List Segment → Prop
+  | [] => True
+  | [_] => True
+  | a :: b :: rest => a.stop = b.start ∧ Chained (b :: rest)
+
+/-- a measure is well formed -/
+def MeasureWF (m : MeasureContent) : Prop :=
+  m.segs ≠ [] ∧ Chained m.segs ∧ ∀ s ∈ m.segs, SegWF m.start s
 
 end Model.Xml
